@@ -153,7 +153,7 @@ def run(tier):
         m["module"] = snake(opname)
         m["case"] = farm.add(Case(r["tokens"], [(m["module"], struct)], prelude=prelude))
     farm.build()
-    model = InputModel(schema, max_depth=1 if tier == "quick" else 2)
+    model = InputModel(schema, max_depth=1)
     vectors = {}
     for oi, (desc, doc) in enumerate(ops):
         ex = gql.Executor(schema, doc)
